@@ -1,5 +1,16 @@
-(* C23 — model of the write path of recompiler._make_c_or_py_source (src/cffi/recompiler.py:1414):
-   a trace of filesystem operations over a two-file model file system.  Definitions only.
+(* C23 — model of recompiler._make_c_or_py_source (src/cffi/recompiler.py:1433-1462): the whole function
+   (`make_source`: the file-like branch :1440-1442 and the path branch) and, for a path target, the trace of
+   filesystem operations of :1446-1462 over a two-file model file system (`write_trace`).  Definitions only.
+
+       if verbose and not _is_file_like(target_file): print("generating ...")      (no file operation; pinned)
+       recompiler = Recompiler(ffi, module_name, target_is_python=(preamble is None))
+       recompiler.collect_type_table(); recompiler.collect_step_tables()           (pinned, in this order)
+       if _is_file_like(target_file):
+           recompiler.write_source_to_f(target_file, preamble)       h_fl_sink, h_fl_arg
+           return True                                               h_fl_result
+       f = NativeIO()
+       recompiler.write_source_to_f(f, preamble)                     h_buf_sink, h_buf_arg
+       output = f.getvalue()
 
        try:
            with open(target_file, 'r') as f1:                 OOpenRead / ORead / OClose
@@ -88,6 +99,11 @@ Fixpoint universal_nl (s : str) : str :=
 Definition py_read_text (content : str) (n : Z) : str :=
   if (n <? 0)%Z then universal_nl content else firstn (Z.to_nat n) (universal_nl content).
 
+(* who receives the text of recompiler.write_source_to_f(sink, arg): the caller's target object, or the local
+   NativeIO buffer `f` whose value becomes `output`; arg: `preamble` or the constant None *)
+Inductive sink := SinkTarget | SinkBuffer.
+Inductive genarg := GPreamble | GNone.
+
 (* the holes *)
 Record holes := {
   h_read_path : path;                       (* open(<this>, 'r') *)
@@ -99,7 +115,13 @@ Record holes := {
   h_rename : path * path;                   (* os.rename(src, dst) *)
   h_fallback_unlink : path;                 (* os.unlink(<this>) *)
   h_fallback_rename : path * path;
-  h_result_written : bool                   (* return True *)
+  h_result_written : bool;                  (* return True *)
+  (* the statements before the try block (recompiler.py:1440-1445) *)
+  h_fl_sink : sink;                         (* file-like branch: recompiler.write_source_to_f(<this>, _) *)
+  h_fl_arg : genarg;                        (*                   recompiler.write_source_to_f(_, <this>) *)
+  h_fl_result : bool;                       (*                   return True *)
+  h_buf_sink : sink;                        (* path branch: f = NativeIO(); recompiler.write_source_to_f(<this>, _) *)
+  h_buf_arg : genarg                        (*              recompiler.write_source_to_f(_, <this>); output = f.getvalue() *)
 }.
 
 Definition fs0 (old : option str) : fs := {| f_target := old; f_tmp := None |}.
@@ -124,3 +146,22 @@ Definition write_trace (h : holes) (rename_ok : bool) (old : option str) (new : 
   else (t_read, h_result_uptodate h).
 
 Definition no_cr (s : str) := Forall (fun c => c <> 13) s.
+
+(* the whole function.  `gen a` = the concatenation of the chunks that recompiler.write_source_to_f(_, a) writes,
+   for the Recompiler object after collect_type_table(); collect_step_tables() — the same object in both branches
+   (the control skeleton, checked against the source on every run, has no statement in between that could
+   change it).  Result: None = raises (a path handed to write_source_to_f: str has no .write; or a file-like
+   target never written to while the buffer is), else (file operations, the text the file-like target
+   received, return value). *)
+Definition make_source (h : holes) (gen : genarg -> str) (filelike rename_ok : bool) (old : option str)
+  : option (list op * option str * bool) :=
+  if filelike then
+    match h_fl_sink h with
+    | SinkTarget => Some ([], Some (gen (h_fl_arg h)), h_fl_result h)
+    | SinkBuffer => None                          (* `f` is not bound yet: UnboundLocalError *)
+    end
+  else
+    match h_buf_sink h with
+    | SinkBuffer => let tr := write_trace h rename_ok old (gen (h_buf_arg h)) in Some (fst tr, None, snd tr)
+    | SinkTarget => None                          (* 'path'.write: AttributeError *)
+    end.
